@@ -35,13 +35,13 @@ def r1_r2(ctx, eff):
     cd = require_func(ctx, "create.create_db")
     sites = temp_sites(ctx, eff, cd)
     ctx.floor("R1", len(sites), 1, "temp-file creation sites in the import call graph")
-    entries = [(ctx.proj.cls("create._GFFDBCreator").methods.get("_update_relations"), "method"),
-               (ctx.proj.cls("create._GTFDBCreator").methods.get("_update_relations"), "method"),
-               (ctx.proj.maybe_func("iterators.DataIterator"), "function")]
-    ctx.require(all(e[0] is not None for e in entries), "anchor vanished: an importer's _update_relations or iterators.DataIterator")
+    # the importers' own temp files are judged on the evaluated create() (r_scenario); here: DataIterator(from_string=True)
+    entries = [(ctx.proj.maybe_func("iterators.DataIterator"), "function")]
+    ctx.require(all(e[0] is not None for e in entries), "anchor vanished: iterators.DataIterator")
     covered = set()
-    for f, _k in entries:
-        covered |= eff.reach(f.qual) | {f.qual}
+    for q_ in ("create._GFFDBCreator._update_relations", "create._GTFDBCreator._update_relations", "create._DBCreator.create", "iterators.DataIterator"):
+        if ctx.proj.maybe_func(q_) is not None:
+            covered |= eff.reach(q_) | {q_}
     for f, c, d in sites:
         ok = d in TEMP_MAKERS
         ctx.ob("R1", ok, "intermediate files get a per-call unique name from tempfile (NamedTemporaryFile/mkstemp)", node=c, func=f, sig="%s creates its temp file with %s" % (f.name, d))
@@ -114,7 +114,7 @@ def r1_r2(ctx, eff):
                                              for t2 in r for ev2 in t2.events)
                         ctx.ob("R2", okf, "the registered finalizer unlinks the path it is given", func=f, sig="%s: finalizer %s" % (label, "unlinks its argument" if okf else "does not unlink"), nontrivial=False)
     # who writes files: every write-open in the import closure is one of the temp-file writes seen above
-    seen_opens = set()
+    seen_opens = set(ctx.extra.get("scenario_write_opens", ()))
     for f, kind in entries:
         for keep in ((False,) if kind == "method" else (None,)):
             for t in run(f, kind, keep):
@@ -128,7 +128,7 @@ def r1_r2(ctx, eff):
             ctx.ob("R1", ok, "files written during an import are the import's own tempfile-named files", node=call, func=ctx.proj.funcs[e[0]],
                    sig="%s writes %s" % (e[0].split(".")[-1], "its temp file" if ok else norm(call.args[0]) if call.args else "?"))
     # a failed construction after the temp file was written must not leave it behind
-    di = entries[2][0]
+    di = entries[0][0]
     it = Interp(ctx)
     from ..absint import RaiseEx
 
@@ -172,5 +172,54 @@ def check(ctx):
         "write-open is one of those writes, no module-level store, no foreign file effect. Concurrent readers: see C19.R3. Does not decide "
         "identical results under every schedule: separate processes share no in-process state, and OS/SQLite locking is outside the source.")
     eff = Effects(ctx)
+    r_scenario(ctx)
     r1_r2(ctx, eff)
     r3(ctx, eff)
+
+
+def r_scenario(ctx):
+    """Both importers' create() evaluated on the model database with an in-memory file system and a temp-file service that
+    hands out a fresh name per request: which files are written, how they are named, and what is left when create() returns."""
+    from . import scen
+    n = 0
+    no_sub = [scen.feature("Z1", "CDS", 10, 20, {"gene_id": ["g"], "transcript_id": ["t"]}), scen.feature("Z2", "CDS", 30, 40, {"gene_id": ["g"], "transcript_id": ["t"]})]
+    cases = []
+    for cls, lines in (("_GFFDBCreator", scen.gff_lines()), ("_GTFDBCreator", scen.gtf_lines())):
+        for keep in (False, True, ".sfx"):
+            cases.append((cls, lines, keep, False, ""))
+        for verbose in (True, "debug"):
+            cases.append((cls, lines, False, verbose, ", verbose=%r" % (verbose,)))
+    cases.append(("_GTFDBCreator", no_sub, False, False, ", nothing to infer"))
+    cases.append(("_GFFDBCreator", [scen.feature("L1", "gene", 1, 10, {"ID": ["only"]})], False, False, ", no relations at all"))
+    for cls, lines, keep, verbose, extra_label in cases:
+        f = require_func(ctx, "create.%s._update_relations" % cls)
+        if True:
+            im, t = scen.run_create(ctx, cls, lines, _keep_tempfiles=keep, verbose=verbose)
+            label = "%s (_keep_tempfiles=%r%s)" % (cls, keep, extra_label)
+            if not scen.returned(ctx, t, "create() of %s" % label, func=f, rule="R2"):
+                continue
+            n += 1
+            it = im.it
+            written = [p for p, m in it.opened if set(m) & set("wax+")]
+            ctx.extra.setdefault("scenario_write_opens", set()).update(ln for p, m, ln in it.open_sites if set(m) & set("wax+") and p in it.tempnames)
+            foreign = [p for p in written if p not in it.tempnames]
+            ctx.ob("R1", not foreign, "every file written during an import is one of its own temp files, named per request by tempfile (NamedTemporaryFile / mkstemp): "
+                   "concurrent imports in one temp directory cannot meet on a name", func=f,
+                   sig="%s: writes only tempfile-named files" % label if not foreign else "%s: writes %s, a name not handed out by tempfile" % (label, foreign[:2]))
+            ctx.ob("R1", len(set(it.tempnames)) == len(it.tempnames) and len(it.tempnames) >= 1, "the import asks tempfile for a fresh name for each intermediate file", func=f,
+                   sig="%s: %d temp name(s) requested" % (label, len(it.tempnames)), nontrivial=False)
+            odd = [sorted(k for k in r if k in ("dir", "prefix")) for r in it.temp_requests if {"dir", "prefix"} & set(r)]
+            ctx.ob("R1", not odd, "the temp file's directory and prefix are left to tempfile (the shared temporary directory)", func=f,
+                   sig="%s: temp keywords plain" % label if not odd else "%s: tempfile called with %s" % (label, odd[0]), nontrivial=False)
+            left = sorted(p for p in it.vfs if p in it.tempnames or p in written)
+            if not keep:
+                ctx.ob("R2", not left, "when create() returns, no intermediate file of the import is left (only `_keep_tempfiles` may keep one)", func=f,
+                       sig="%s: temp directory clean" % label if not left else "%s: left behind %s" % (label, left[:2]))
+            else:
+                ctx.ob("R2", True, "with _keep_tempfiles the intermediate file may stay", func=f, sig="%s: %d file(s) kept" % (label, len(left)), nontrivial=False)
+            # the file is removed only after it has been read back: the tables already hold what it carried
+            if cls == "_GFFDBCreator" and len(lines) > 3:
+                lvl2 = [r for r in im.table("relations") if r[2] == 2]
+                ctx.ob("R2", len(lvl2) >= 4, "the intermediate file is read back before it is removed (its second-level relations are in the table)", func=f,
+                       sig="%s: %d second-level relations stored" % (label, len(lvl2)), nontrivial=False)
+    ctx.floor("R2", n, 6, "import scenarios with temp files")
